@@ -7,7 +7,8 @@ namespace Driver.IndexEng
 open Rlbox Driver
 
 def elTy : String → Option CTy
-  | "char" => some (.base .char) | "long" => some (.base .long) | "ptr" => some .ptr | _ => none
+  | "char" => some (.base .char) | "long" => some (.base .long) | "ptr" => some .ptr
+  | "short" => some (.base .short) | "int" => some (.base .int) | "uint" => some (.base .uint) | _ => none
 
 def strideOf (kind : String) (t : CTy) : Nat := if kind == "sbx" then t.size abiA else t.size abiHost
 
